@@ -11,6 +11,12 @@ CLAIMED = {
         "note": "Map sites inside the standard library, cue, yaml.v3, expr and (for now) kin-openapi/jsonschema/codejen keep the runtime's order; a residual-nondeterminism self-check (same schedule twice, observations compared) polices that. Error texts are not compared, only ok/fail.",
         "design_ref": "DESIGN.md §5 C03",
     },
+    "C07": {
+        "technique": "deterministic simulation: the language loop's order is pinned by the scheduler to shuffled permutations (alone vs together), input arrival order is permuted, unrelated/same-package inputs are added, and interference monitors hold the schemas shared by all language chains and compare them with a snapshot after every chain; replay",
+        "text": "Sampling of pipelines under controlled language order and input order, with equality oracles (files per language, per package) and a shared-state interference monitor at the seam Pipeline.Run already has (probe compiler pass + progress reporter).",
+        "note": "Clause (c) compares only files whose path names one of the original packages (aggregate index files are not attributed). Clause (d) accepts any failing run. Snapshots are JSON renderings of the IR (every exported field, ordered-map order included).",
+        "design_ref": "DESIGN.md §5 C07",
+    },
     "C19": {
         "technique": "deterministic simulation: seeded operation histories (incl. re-entrant callbacks, FromMap under a scheduled map order) against a slice-of-pairs reference model, checked after every operation, shrunk and replayed",
         "text": "Seeded sampling of operation histories over the real orderedmap.Map with a reference model as oracle after every step. Sampling, not enumeration: a clean batch is evidence that no short history breaks the map, not a proof.",
